@@ -23,17 +23,38 @@ func checkC43(r *ev.Run) {
 			return
 		}
 		rr := rng.New(r.Seed, "C43", si)
-		c := chain.NewChaos(rr, chain.ChaosCfg{Nodes: 8 + si%4, Apps: 4, Accts: 5, Blocks: blocks, Delegators: si%2 == 0})
-		c.Generate()
-		// make sure the exported state contains nodes and an application that are in the middle of unstaking
-		c.B.Begin(30)
-		for _, k := range []int{chain.KeyNode0 + 1, chain.KeyNode0 + 2, chain.KeyNode0 + 4} {
-			c.B.Tx(chain.MsgNodeUnstake(chain.Addr(k), chain.Addr(k)), chain.Key(k))
+		// two families: "stormy" histories end with nodes and an application in the middle of unstaking (the importer is
+		// known to refuse those states); "calm" histories have no unstaking at all (no begin-unstake, no evidence, no forced
+		// unstake) and end with validators jailed but still staked, so that the importer starts and the comparison of the
+		// imported state actually runs
+		calm := si%2 == 1
+		c := chain.NewChaos(rr, chain.ChaosCfg{Nodes: 8 + si%4, Apps: 4, Accts: 5, Blocks: blocks, Delegators: si%4 == 0, NoUnstake: calm, NoEvidence: calm, NoGov: calm && si%4 == 1})
+		if calm {
+			c.B.Gen.MaxJailedBlocks = 100000
+			r.Count("calm_histories", 1)
 		}
-		c.B.Tx(chain.MsgAppUnstake(chain.Addr(chain.KeyApp0+1)), chain.Key(chain.KeyApp0+1))
-		c.B.End()
-		for i := 0; i < 4; i++ { // cross a session boundary so that the waiting nodes start unstaking
-			c.B.Empty(30)
+		c.Generate()
+		if calm {
+			for i := 0; i < 9; i++ {
+				blk := c.B.Begin(30)
+				for j, k := range c.NodeKeys() { // three of every four nodes the generator knows of: those that validate get jailed
+					if j%4 != si/2%4 {
+						blk.Missed = append(blk.Missed, chain.AddrHex(k))
+					}
+				}
+				c.B.End()
+			}
+		} else {
+			// make sure the exported state contains nodes and an application that are in the middle of unstaking
+			c.B.Begin(30)
+			for _, k := range []int{chain.KeyNode0 + 1, chain.KeyNode0 + 2, chain.KeyNode0 + 4} {
+				c.B.Tx(chain.MsgNodeUnstake(chain.Addr(k), chain.Addr(k)), chain.Key(k))
+			}
+			c.B.Tx(chain.MsgAppUnstake(chain.Addr(chain.KeyApp0+1)), chain.Key(chain.KeyApp0+1))
+			c.B.End()
+			for i := 0; i < 4; i++ { // cross a session boundary so that the waiting nodes start unstaking
+				c.B.Empty(30)
+			}
 		}
 		sc := c.B.Script("full")
 		sc.Steps = append(sc.Steps, chain.Step{Op: "export"})
@@ -86,6 +107,7 @@ func checkC43(r *ev.Run) {
 			r.Sample(map[string]interface{}{"case": si, "history": c.Describe(), "exported_height": src.Height, "export_bytes": len(export), "unstaking_nodes": unstaking, "jailed_nodes": jailed})
 		}
 		judgeExportContent(r, si, src, export, wit)
+		judgeImportDecoding(r, si, src, export, wit)
 		if dst == nil {
 			reason := "importer-exited/other"
 			low := strings.ToLower(b.Stderr)
@@ -94,6 +116,8 @@ func checkC43(r *ev.Run) {
 				reason = "importer-exited/pool-balance-ne-staked-sum"
 			case strings.Contains(low, "invalid acl") && strings.Contains(low, "not a recognized parameter"):
 				reason = "importer-exited/acl-lists-parameter-of-inactive-feature"
+			case strings.Contains(low, "genesis validator cannot have zero stake"):
+				reason = "importer-exited/zero-stake-validator-refused"
 			case strings.Contains(low, "the applications must be staked at genesis"):
 				reason = "importer-exited/unstaking-application-refused"
 			case strings.Contains(low, "panic"):
